@@ -115,6 +115,7 @@ def build(mod, strat, bits, vals, ghost, now=1000.0):
   sset('MIN_TIMESTAMP_LAG', 0)
   state.cacheTooFull = False
   mod.time = FakeTime(now)
+  mod.choice = lambda seq: seq[0]          # random strategy: harnesses that care install a symbolic pick
   cache = mod._MetricCache(strategy_class(mod, strat))
   k = 0
   for i in (0, 1):
